@@ -1,3 +1,152 @@
-import MgProof.C04.Lemmas
+import MgProof.C04.LockStep
+import MgProof.C04.OnceStep
+import MgProof.C04.RefStep
+/-!
+# C04 — property theorems
+
+Property (properties.jsonl): spinlock, synclock and mutex admit at most one holder at a
+time and what one holder wrote inside the critical section is visible to the next
+holder; call_once runs the function exactly once however many threads race, and no
+caller returns before that run has completed; a reference counter behaves as a
+linearizable counter that can never be incremented or decremented again once it has
+reached zero, so for any mix of concurrent retains and releases exactly one release
+observes zero.
+
+Quantifiers: every number of threads, every number of rounds / every program, every
+schedule of every length (`Conc.Reach` = closure of the step relation under all tokens),
+at the granularity of single shared-memory accesses of the compiled code.
+-/
 namespace MgProof.C04
+open MgModel.Conc MgModel.C04
+
+/-! ## Locks -/
+
+/-- **Mutual exclusion + visibility** for spinlock, synclock (strong CAS, as in the
+repaired `synclock.c`) and mutex: in every reachable state of `n` threads doing any
+number of rounds, at most one thread holds the lock, the harness's ghost check never
+fires, and no reader of the protected data can miss the latest write
+(`staleReads = 0`: the latest write id is in the reader's acquire knowledge). -/
+theorem lock_exclusion_and_visibility (k : Kind) (hk : k ≠ .sync true) (n rounds : Nat)
+    (s : St) (hr : Reach step (mkInit k n rounds) s) :
+    (∀ t u, holds s t → holds s u → t = u) ∧ s.viol = 0 ∧ s.staleReads = 0 ∧
+    (∀ t, holds s t → s.lock = 1) := by
+  have inv : LockInv k s :=
+    Reach.inv (LockInv k) (lockInv_init k n rounds)
+      (fun _ _ _ _ h hs => lock_step_inv hk h hs) s hr
+  exact ⟨inv.excl, inv.viol, inv.stale, inv.locked⟩
+
+/-- the same, phrased for the run of any concrete schedule -/
+theorem lock_exclusion_run (k : Kind) (hk : k ≠ .sync true) (n rounds : Nat) (sched : List Tok) :
+    (runSched step (mkInit k n rounds) sched).1.viol = 0 ∧
+    (runSched step (mkInit k n rounds) sched).1.staleReads = 0 := by
+  have := lock_exclusion_and_visibility k hk n rounds _
+    (reach_runSched step _ _ Reach.init sched)
+  exact ⟨this.2.1, this.2.2.1⟩
+
+/-- **Why the weak CAS had to go** (the defect repaired in /repo by `fix: synclock lock must
+use a strong compare-exchange`): with a weak compare-exchange that fails spuriously the
+full statement is false — the schedule `1! 0 …` replayed on the real object code puts
+two threads inside the critical section. -/
+theorem synclock_weak_cas_fails :
+    ∃ sched : List Tok, (runSched step (mkInit (.sync true) 2 1) sched).1.viol ≠ 0 := by
+  refine ⟨[⟨1, .spur⟩, ⟨0, .none⟩], ?_⟩
+  decide
+
+/-- the witness also loses an update: both threads complete, `data = 1` -/
+example : (runSched step (mkInit (.sync true) 2 1)
+    [⟨1, .spur⟩, ⟨0, .none⟩, ⟨0, .none⟩, ⟨1, .none⟩, ⟨1, .none⟩, ⟨1, .none⟩, ⟨0, .none⟩,
+     ⟨1, .none⟩, ⟨0, .none⟩, ⟨0, .none⟩]).1.data = 1 := by decide
+
+/-- non-vacuity: a concrete contended schedule of the spinlock reaches a state with a
+holder while another thread spins -/
+example : holds (runSched step (mkInit .spin 2 1) [⟨1, .none⟩, ⟨0, .none⟩]).1 1 ∧
+    (runSched step (mkInit .spin 2 1) [⟨1, .none⟩, ⟨0, .none⟩]).1.pc 0 = .yld := by
+  constructor
+  · left; decide
+  · decide
+
+/-! ## call_once -/
+
+/-- **call_once**: in every reachable state of `n` racing callers the body has run at most
+once, every caller that has returned did so after the body completed (`early = 0`) and is
+guaranteed to see the body's writes (`staleReads = 0`), and a returned caller implies
+the body ran exactly once. -/
+theorem call_once_once (n : Nat) (s : Once.St) (hr : Reach Once.step (Once.mkInit n) s) :
+    s.bodyRuns ≤ 1 ∧ s.early = 0 ∧ s.staleReads = 0 ∧
+    (∀ t, s.pc t = .done → s.bodyRuns = 1 ∧ s.bodyDone = 1) := by
+  have inv : OnceP.Inv s :=
+    Reach.inv OnceP.Inv (OnceP.inv_init n) (fun _ _ _ _ h hs => OnceP.step_inv h hs) s hr
+  obtain ⟨f0, f1, f2, fle, he, hst⟩ := inv
+  refine ⟨?_, he, hst, ?_⟩
+  · by_cases h0 : s.flag = 0
+    · rw [(f0 h0).1]; omega
+    · by_cases h1 : s.flag = 1
+      · obtain ⟨r, hr, _, a, b, c, d⟩ := f1 h1
+        rcases hr with h | ⟨tmp, h⟩ | h | h
+        · rw [(a h).1]; omega
+        · rw [(b tmp h).2.1]; omega
+        · rw [(c h).1]; omega
+        · rw [(d h).1]; omega
+      · have h2 : s.flag = 2 := by omega
+        rw [(f2 h2).1]; omega
+  · intro t ht
+    have h2 : s.flag = 2 := by
+      by_cases h0 : s.flag = 0
+      · have := (f0 h0).2.2 t; rw [this] at ht; simp at ht
+      · by_cases h1 : s.flag = 1
+        · obtain ⟨r, hr, ho, _⟩ := f1 h1
+          by_cases h : t = r
+          · subst h; rw [ht] at hr; simp [OnceP.running] at hr
+          · rcases ho t h with h' | h' <;> rw [h'] at ht <;> simp at ht
+        · omega
+    exact ⟨(f2 h2).1, (f2 h2).2.1⟩
+
+/-- non-vacuity: three callers, a schedule in which a loser spins while the body runs -/
+example : (runSched Once.step (Once.mkInit 3)
+    [⟨1, .none⟩, ⟨0, .none⟩, ⟨0, .none⟩, ⟨1, .none⟩, ⟨1, .none⟩, ⟨1, .none⟩, ⟨1, .none⟩,
+     ⟨0, .none⟩, ⟨0, .none⟩]).1.pc 0 = .done := by decide
+
+/-! ## ref_cnt -/
+
+open RefP in
+/-- **ref_cnt is linearizable to a counter saturating at zero**: in every reachable state
+of any number of threads running any retain/release programs, the completed operations,
+in completion order, with the results they returned, are exactly a sequential run of the
+specification counter from the initial value, ending at the current value. -/
+theorem ref_cnt_linearizable (init : Nat) (progs : List (List RefCnt.Op)) (s : RefCnt.St)
+    (hr : Reach RefCnt.step (RefCnt.mkInit init progs) s) :
+    specRun init (s.log.map Prod.fst) = (s.ref, s.log.map Prod.snd) :=
+  (Reach.inv (Inv init) (inv_init init progs) (fun _ _ _ _ h hs => step_inv h hs) s hr).lin
+
+open RefP in
+/-- **at most one operation observes zero, and it is a release; exactly one if the counter
+ended at zero**; after zero every operation fails (`specRun_zero`). -/
+theorem ref_cnt_one_zero (init : Nat) (progs : List (List RefCnt.Op)) (s : RefCnt.St)
+    (hr : Reach RefCnt.step (RefCnt.mkInit init progs) s) :
+    (s.log.map Prod.snd).count (some 0) ≤ 1 ∧
+    (init ≠ 0 → s.ref = 0 → (s.log.map Prod.snd).count (some 0) = 1) ∧
+    (∀ i : Nat, (s.log.map Prod.snd)[i]? = some (some 0) → (s.log.map Prod.fst)[i]? = some RefCnt.Op.release) := by
+  have lin := ref_cnt_linearizable init progs s hr
+  have h2 : (specRun init (s.log.map Prod.fst)).2 = s.log.map Prod.snd := by rw [lin]
+  have h1 : (specRun init (s.log.map Prod.fst)).1 = s.ref := by rw [lin]
+  refine ⟨?_, ?_, ?_⟩
+  · rw [← h2]; exact specRun_count_zero _ _
+  · intro hi hz
+    rw [← h2]
+    exact specRun_reaches_zero _ _ hi (by rw [h1]; exact hz)
+  · intro i hi
+    rw [← h2] at hi
+    exact specRun_zero_is_release _ _ i hi
+
+open RefP in
+/-- zero is absorbing in the specification: from zero every retain and release fails and
+the value stays zero (so, by `ref_cnt_linearizable`, also in the implementation model) -/
+theorem ref_cnt_zero_absorbing (ops : List RefCnt.Op) :
+    specRun 0 ops = (0, ops.map (fun _ => none)) := specRun_zero ops
+
+/-- non-vacuity: two threads, `release` racing `retain; release` from 1 -/
+example : (runSched RefCnt.step (RefCnt.mkInit 1 [[.retain, .release], [.release]])
+    [⟨1, .none⟩, ⟨0, .none⟩, ⟨0, .none⟩, ⟨1, .none⟩, ⟨0, .none⟩, ⟨0, .none⟩, ⟨1, .none⟩, ⟨1, .none⟩]).1.ref
+    = 0 := by decide
+
 end MgProof.C04
